@@ -133,7 +133,7 @@ class Hist:
         vmf = self.maps[mi]
         op = rng.choice(['ent', 'ent', 'brush_ent', 'solid', 'side', 'vis', 'group', 'copy_ent', 'copy_ent_other', 'copy_solid',
                          'remove_ent', 'remove_ent', 'drop', 'drop', 'readd', 'readd', 'remove_brush', 'nodeid', 'nodeid_change',
-                         'fixup', 'fixup_copy', 'parse_dups', 'collapse', 'copy_side', 'copy_vis', 'copy_group', 'failed_create', 'remove_again'])
+                         'fixup', 'fixup_copy', 'parse_dups', 'collapse', 'copy_side', 'copy_vis', 'copy_group', 'failed_create', 'remove_again', 'prism'])
         try:
             if op == 'ent':
                 d = rng.choice(IDS)
@@ -152,6 +152,17 @@ class Hist:
                 s = Solid(vmf, d, [Side(vmf, [Vec(), Vec(1, 0, 0), Vec(0, 1, 0)], des_id=rng.choice(IDS)) for _ in range(rng.randint(1, 4))])
                 vmf.add_brush(s)
                 self.log.append(f'{op} map{mi} desired={d} -> {s.id}')
+                self.nontrivial = self.nontrivial or self.released
+            elif op == 'prism':
+                # the brush factories: make_prism (one brush, optionally with explicit vertices) and make_hollow (six)
+                if rng.random() < 0.6:
+                    pf = vmf.make_prism(Vec(0, 0, 0), Vec(64, 32 + rng.randrange(64), 16), set_points=rng.random() < 0.5)
+                    vmf.add_brush(pf.solid)
+                    self.log.append(f'{op} map{mi} make_prism -> {pf.solid.id}')
+                else:
+                    new = vmf.make_hollow(Vec(0, 0, 0), Vec(256, 256, 128), thick=rng.choice((8, 16)))
+                    vmf.add_brushes(new)
+                    self.log.append(f'{op} map{mi} make_hollow -> {[b.id for b in new]}')
                 self.nontrivial = self.nontrivial or self.released
             elif op == 'side':
                 if not vmf.brushes:
